@@ -70,8 +70,9 @@ pub fn family(f: usize) -> Vec<(&'static str, SGeom)> {
             ("octagon", SGeom::Poly(vec![(10, 0), (30, 0), (40, 10), (40, 30), (30, 40), (10, 40), (0, 30), (0, 10)])),
             ("45-degree chevron (bbox centre outside)", SGeom::Poly(vec![(0, 0), (20, 20), (40, 0), (40, 10), (20, 30), (0, 10)])),
             // 2e8 units wide: the bounding-box centre misses the hypotenuse by a cross product of 1 (needs more than 53 bits)
-            ("large triangle whose bbox centre is just outside", SGeom::Poly(vec![(0, 0), (200000001, 200000003), (200000001, 0)])),
-            ("large triangle whose bbox centre is just inside", SGeom::Poly(vec![(0, 0), (200000001, 200000001), (200000001, 0)])),
+            // (they start at x = 1000, clear of the other shapes of the alphabet, which lie left of that)
+            ("large triangle whose bbox centre is just outside", SGeom::Poly(vec![(1000, 0), (200001001, 200000003), (200001001, 0)])),
+            ("large triangle whose bbox centre is just inside", SGeom::Poly(vec![(1000, 0), (200001001, 200000001), (200001001, 0)])),
         ],
         4 => vec![
             ("T", SGeom::Poly(vec![(20, 0), (40, 0), (40, 40), (60, 40), (60, 60), (0, 60), (0, 40), (20, 40)])),
